@@ -27,6 +27,7 @@ use lightning::events::{ClosureReason, Event, HTLCHandlingFailureType};
 use lightning::ln::channelmanager::{ChannelManagerReadArgs, PaymentId};
 use lightning::ln::functional_test_utils::*;
 use lightning::ln::msgs::{self, BaseMessageHandler, ChannelMessageHandler, MessageSendEvent};
+use lightning::{get_local_commitment_txn, get_monitor};
 use lightning::ln::outbound_payment::RecipientOnionFields;
 use lightning::ln::types::ChannelId;
 use lightning::sign::SpendableOutputDescriptor;
@@ -1836,6 +1837,346 @@ fn splice_case(splice: u8, timing: u8, trace: TraceRef) {
 	std::mem::forget(nodes);
 }
 
+// ------------------------------------------------------------------------------------------------
+// scripted cases: forwards to SCIDs without a channel (interception) with sender-crafted onions
+// ------------------------------------------------------------------------------------------------
+/// `kind` 0: onion names an intercept SCID (flag ToInterceptSCIDs), 1: an unknown SCID (flag
+/// ToUnknownSCIDs), 2: the real B-C channel with flag ToPublicChannels (the channel's policy applies
+/// before the interception). The onion asks B to forward `inbound + amt_skew` msat with
+/// `outgoing_cltv = inbound_cltv - (B's delta) + cltv_skew`. The harness's user forwards exactly
+/// `expected_outbound_amount_msat`. Recorded: what B received, what it offered downstream (if it did).
+fn intercept_case(kind: u8, amt_skew: i64, cltv_skew: i64, trace: TraceRef) {
+	use bitcoin::secp256k1::{Secp256k1, SecretKey};
+	use lightning::ln::onion_utils::create_payment_onion;
+	use lightning::util::config::HTLCInterceptionFlags;
+	let chanmon_cfgs = create_chanmon_cfgs(3);
+	let node_cfgs = create_node_cfgs(3, &chanmon_cfgs);
+	let mut cfg_b = test_legacy_channel_config();
+	cfg_b.htlc_interception_flags = match kind {
+		0 => HTLCInterceptionFlags::ToInterceptSCIDs as u8,
+		1 => HTLCInterceptionFlags::ToUnknownSCIDs as u8,
+		2 => HTLCInterceptionFlags::ToPublicChannels as u8,
+		3 => HTLCInterceptionFlags::ToOnlinePrivateChannels as u8,
+		_ => HTLCInterceptionFlags::ToOfflinePrivateChannels as u8,
+	};
+	cfg_b.accept_forwards_to_priv_channels = true;
+	cfg_b.channel_config.forwarding_fee_base_msat = 1000;
+	cfg_b.channel_config.forwarding_fee_proportional_millionths = 0;
+	cfg_b.channel_config.cltv_expiry_delta = 72;
+	let legacy = test_legacy_channel_config();
+	let node_chanmgrs = create_node_chanmgrs(3, &node_cfgs, &[Some(legacy.clone()), Some(cfg_b), Some(legacy)]);
+	let nodes = create_network(3, &node_cfgs, &node_chanmgrs);
+	for n in nodes.iter() {
+		*n.connect_style.borrow_mut() = ConnectStyle::BestBlockFirst;
+	}
+	let node_a_id = nodes[0].node.get_our_node_id();
+	let node_c_id = nodes[2].node.get_our_node_id();
+	create_announced_chan_between_nodes(&nodes, 0, 1);
+	let chan_bc = create_announced_chan_between_nodes_with_value(&nodes, 1, 2, 1_000_000, 0);
+	let (mut fwd_chan_id, mut fwd_scid) = (chan_bc.2, chan_bc.0.contents.short_channel_id);
+	if kind >= 3 {
+		// a second, unannounced B - C channel; the onion names it
+		let _ = create_unannounced_chan_between_nodes_with_value(&nodes, 1, 2, 1_000_000, 0);
+		for c in nodes[1].node.list_channels() {
+			if c.counterparty.node_id == node_c_id && c.channel_id != chan_bc.2 {
+				fwd_chan_id = c.channel_id;
+				fwd_scid = c.short_channel_id.or(c.outbound_scid_alias).unwrap();
+			}
+		}
+	}
+	let amt_msat = 1_000_000u64;
+	let (mut route, payment_hash, _preimage, payment_secret) = get_route_and_payment_hash!(nodes[0], nodes[2], amt_msat);
+	let scid = match kind {
+		0 => nodes[1].node.get_intercept_scid(),
+		1 => 0x0007_0000_0700_0007u64,
+		_ => fwd_scid,
+	};
+	if kind == 4 {
+		nodes[1].node.peer_disconnected(node_c_id);
+		nodes[2].node.peer_disconnected(nodes[1].node.get_our_node_id());
+	}
+	route.paths[0].hops[1].short_channel_id = scid;
+	let onion = RecipientOnionFields::secret_only(payment_secret, amt_msat);
+	nodes[0].node.send_payment_with_route(route.clone(), payment_hash, onion, PaymentId(payment_hash.0)).unwrap();
+	nodes[0].chain_monitor.added_monitors.lock().unwrap().clear();
+	let mut payment_event = SendEvent::from_node(&nodes[0]);
+	let in_amt = payment_event.msgs[0].amount_msat;
+	let in_cltv = payment_event.msgs[0].cltv_expiry;
+	// the sender's own onion: what it asks B to forward
+	let onion_amt = (in_amt as i64 + amt_skew).max(1) as u64;
+	let cur_height = nodes[0].best_block_info().1 + 1;
+	let mut bogus = route.paths[0].clone();
+	bogus.hops[1].fee_msat = onion_amt;
+	// in_cltv = cur_height + final_delta + B's delta; the onion's outgoing value is cur_height + final_delta
+	bogus.hops[1].cltv_expiry_delta = (bogus.hops[1].cltv_expiry_delta as i64 + cltv_skew).max(0) as u32;
+	let session_priv = SecretKey::from_slice(&[3; 32]).unwrap();
+	let fields = RecipientOnionFields::secret_only(payment_secret, onion_amt);
+	let (packet, _, _) =
+		create_payment_onion(&Secp256k1::new(), &bogus, &session_priv, &fields, cur_height, &payment_hash, &None, None, [0; 32]).unwrap();
+	let onion_cltv = cur_height + bogus.hops[1].cltv_expiry_delta;
+	payment_event.msgs[0].onion_routing_packet = packet;
+	nodes[1].node.handle_update_add_htlc(node_a_id, &payment_event.msgs[0]);
+	do_commitment_signed_dance(&nodes[1], &nodes[0], &payment_event.commitment_msg, false, true);
+	nodes[1].node.process_pending_htlc_forwards();
+	let mut intercepted = 0;
+	let mut expected_out = 0u64;
+	let mut failed = 0;
+	for ev in nodes[1].node.get_and_clear_pending_events() {
+		match ev {
+			Event::HTLCIntercepted { intercept_id, expected_outbound_amount_msat, .. } => {
+				intercepted = 1;
+				expected_out = expected_outbound_amount_msat;
+				// what an LSP does: forward the amount the node said it expects to forward
+				let _ = nodes[1].node.forward_intercepted_htlc(intercept_id, &fwd_chan_id, node_c_id, expected_outbound_amount_msat);
+			},
+			Event::HTLCHandlingFailed { .. } => failed = 1,
+			_ => {},
+		}
+	}
+	nodes[1].node.process_pending_htlc_forwards();
+	nodes[1].node.process_pending_htlc_forwards();
+	for ev in nodes[1].node.get_and_clear_pending_events() {
+		if let Event::HTLCHandlingFailed { .. } = ev {
+			failed = 1;
+		}
+	}
+	let (mut out_amt, mut out_cltv, mut forwarded) = (0u64, 0u32, 0);
+	for ev in nodes[1].node.get_and_clear_pending_msg_events() {
+		if let MessageSendEvent::UpdateHTLCs { node_id, updates, .. } = ev {
+			if node_id == node_c_id {
+				for add in updates.update_add_htlcs.iter() {
+					forwarded = 1;
+					out_amt = add.amount_msat;
+					out_cltv = add.cltv_expiry;
+				}
+			} else if !updates.update_fail_htlcs.is_empty() || !updates.update_fail_malformed_htlcs.is_empty() {
+				failed = 1;
+			}
+		}
+	}
+	trace.lock().unwrap().rec(
+		"ICPT",
+		format!(
+			"kind={} height={} amt_skew={} cltv_skew={} in_amt={} in_cltv={} onion_amt={} onion_cltv={} intercepted={} expected_out={} forwarded={} out_amt={} out_cltv={} failed={} base=1000 prop=0 delta=72",
+			kind, nodes[1].best_block_info().1 + 1, amt_skew, cltv_skew, in_amt, in_cltv, onion_amt, onion_cltv, intercepted, expected_out, forwarded, out_amt, out_cltv, failed
+		),
+	);
+	std::mem::forget(nodes);
+}
+
+fn scripted<F: FnOnce(TraceRef) + std::panic::UnwindSafe>(idx: u64, tag: String, out: &mut std::fs::File, f: F) {
+	let trace: TraceRef = Arc::new(Mutex::new(Trace { scen: idx, step: 0, lines: Vec::new() }));
+	let t2 = trace.clone();
+	let res = panic::catch_unwind(move || f(t2));
+	let mut tr = match trace.lock() {
+		Ok(g) => g,
+		Err(p) => p.into_inner(),
+	};
+	if res.is_err() {
+		let msg = LAST_PANIC.with(|m| m.borrow().clone());
+		tr.rec("PANIC", format!("{} msg={}", tag, msg.replace('\n', " ").replace(' ', "_")));
+	}
+	for l in tr.lines.iter() {
+		writeln!(out, "{}", l).unwrap();
+	}
+	out.flush().unwrap();
+}
+
+fn run_intercept_cases(out: &mut std::fs::File) {
+	let mut idx = 0u64;
+	for kind in 0..5u8 {
+		for amt_skew in [-2000i64, -1001, -1000, -999, -1, 0, 1, 1000, 49_000_000] {
+			for cltv_skew in [0i64, 24, 25, 40] {
+				if cltv_skew != 0 && !(amt_skew == -1000 || amt_skew == 0) {
+					continue;
+				}
+				scripted(idx, format!("kind={} amt_skew={} cltv_skew={}", kind, amt_skew, cltv_skew), out, move |t| {
+					intercept_case(kind, amt_skew, cltv_skew, t)
+				});
+				idx += 1;
+			}
+		}
+	}
+}
+
+// ------------------------------------------------------------------------------------------------
+// scripted cases: which commitment of the DOWNSTREAM channel confirms x is the HTLC dust there x
+// restart of B at a confirmation depth
+// ------------------------------------------------------------------------------------------------
+/// A -> B -> C, HTLC of `amt_msat` pending, C never claims. `which` 0: B force-closes (its current
+/// commitment confirms); 1: C fails the HTLC (update_fail_htlc + commitment_signed reach B, B's answers
+/// never reach C) and B's PREVIOUS commitment - the one carrying the HTLC, signed before that update -
+/// confirms; 2: C's commitment confirms. `restart_depth` >= 0: B restarts when the closing transaction
+/// has that many blocks on top, from the current monitors and (`stale_mgr`) the manager written before
+/// the close or the manager as of now. Recorded: outputs of the confirmed transaction and the depth at
+/// which B released update_fail_htlc to A (if it did within ANTI_REORG_DELAY + 3 blocks).
+fn onchain_case(feerate: u32, amt_msat: u64, which: u8, restart_depth: i32, stale_mgr: bool, trace: TraceRef) {
+	let chanmon_cfgs: &'static Vec<TestChanMonCfg> = Box::leak(Box::new(create_chanmon_cfgs(3)));
+	for c in chanmon_cfgs.iter() {
+		*c.fee_estimator.sat_per_kw.lock().unwrap() = feerate;
+	}
+	let node_cfgs: &'static Vec<NodeCfg<'static>> = Box::leak(Box::new(create_node_cfgs(3, chanmon_cfgs)));
+	let legacy = test_legacy_channel_config();
+	let node_chanmgrs: &'static Vec<_> = Box::leak(Box::new(create_node_chanmgrs(
+		3,
+		node_cfgs,
+		&[Some(legacy.clone()), Some(legacy.clone()), Some(legacy.clone())],
+	)));
+	let mut nodes = create_network(3, node_cfgs, node_chanmgrs);
+	for n in nodes.iter() {
+		*n.connect_style.borrow_mut() = ConnectStyle::BestBlockFirst;
+	}
+	let node_a_id = nodes[0].node.get_our_node_id();
+	let node_b_id = nodes[1].node.get_our_node_id();
+	let node_c_id = nodes[2].node.get_our_node_id();
+	let chan_ab = create_announced_chan_between_nodes(&nodes, 0, 1).2;
+	let chan_bc = create_announced_chan_between_nodes(&nodes, 1, 2).2;
+	let (_preimage, payment_hash, ..) = route_payment(&nodes[0], &[&nodes[1], &nodes[2]], amt_msat);
+	let mgr_before = nodes[1].node.encode();
+	let bs_with_htlc = get_local_commitment_txn!(nodes[1], chan_bc);
+	let closing_tx = match which {
+		0 => {
+			let _ = nodes[1].node.force_close_broadcasting_latest_txn(&chan_bc, &node_c_id, "close".to_string());
+			nodes[1].tx_broadcaster.txn_broadcast().remove(0)
+		},
+		1 => {
+			nodes[2].node.fail_htlc_backwards(&payment_hash);
+			nodes[2].node.process_pending_htlc_forwards();
+			let _ = nodes[2].node.get_and_clear_pending_events();
+			nodes[2].chain_monitor.added_monitors.lock().unwrap().clear();
+			let cs_fail = get_htlc_update_msgs(&nodes[2], &node_b_id);
+			nodes[1].node.handle_update_fail_htlc(node_c_id, &cs_fail.update_fail_htlcs[0]);
+			nodes[1].node.handle_commitment_signed_batch_test(node_c_id, &cs_fail.commitment_signed);
+			// B's revoke_and_ack / commitment_signed never reach C
+			let _ = nodes[1].node.get_and_clear_pending_msg_events();
+			bs_with_htlc[0].clone()
+		},
+		_ => get_local_commitment_txn!(nodes[2], chan_bc)[0].clone(),
+	};
+	nodes[1].chain_monitor.added_monitors.lock().unwrap().clear();
+	let outs: Vec<u64> = closing_tx.output.iter().map(|o| o.value.to_sat()).collect();
+	let htlc_output = outs.iter().any(|v| *v == amt_msat / 1000);
+	mine_transaction(&nodes[1], &closing_tx);
+	let mut failed_at: i32 = -1;
+	let mut restarted = false;
+	for depth in 0..(ANTI_REORG_DELAY as i32 + 4) {
+		if depth == restart_depth && !restarted {
+			restarted = true;
+			nodes[0].node.peer_disconnected(node_b_id);
+			nodes[2].node.peer_disconnected(node_b_id);
+			let mgr = if stale_mgr { mgr_before.clone() } else { nodes[1].node.encode() };
+			let mon_ab = get_monitor!(nodes[1], chan_ab).encode();
+			let mon_bc = get_monitor!(nodes[1], chan_bc).encode();
+			let persister: &'static lightning::util::test_utils::TestPersister =
+				Box::leak(Box::new(lightning::util::test_utils::TestPersister::new()));
+			let new_cm: &'static TestChainMonitor<'static> = Box::leak(Box::new(TestChainMonitor::new(
+				Some(nodes[1].chain_source),
+				nodes[1].tx_broadcaster,
+				nodes[1].logger,
+				nodes[1].fee_estimator,
+				persister,
+				nodes[1].keys_manager,
+			)));
+			nodes[1].chain_monitor = new_cm;
+			let node_ref: &'static Node<'static, 'static, 'static> = unsafe { &*(&nodes[1] as *const Node<'static, 'static, 'static>) };
+			let new_mgr: &'static TestChannelManager<'static, 'static> =
+				Box::leak(Box::new(_reload_node(node_ref, legacy.clone(), &mgr, &[&mon_ab, &mon_bc], None)));
+			nodes[1].node = new_mgr;
+			nodes[1].onion_messenger.set_offers_handler(new_mgr);
+			nodes[1].onion_messenger.set_async_payments_handler(new_mgr);
+			nodes[1].chain_monitor.added_monitors.lock().unwrap().clear();
+			connect_nodes(&nodes[0], &nodes[1]);
+		}
+		// let B and A talk until quiet; note when B releases a failure for the upstream HTLC
+		for _ in 0..12 {
+			nodes[1].node.process_pending_htlc_forwards();
+			let _ = nodes[1].node.get_and_clear_pending_events();
+			let mut any = false;
+			for ev in nodes[1].node.get_and_clear_pending_msg_events() {
+				any = true;
+				match ev {
+					MessageSendEvent::UpdateHTLCs { node_id, updates, .. } if node_id == node_a_id => {
+						if (!updates.update_fail_htlcs.is_empty() || !updates.update_fail_malformed_htlcs.is_empty()) && failed_at < 0 {
+							failed_at = depth;
+						}
+					},
+					MessageSendEvent::SendChannelReestablish { node_id, msg } if node_id == node_a_id => {
+						nodes[0].node.handle_channel_reestablish(node_b_id, &msg);
+					},
+					_ => {},
+				}
+			}
+			for ev in nodes[0].node.get_and_clear_pending_msg_events() {
+				any = true;
+				if let MessageSendEvent::SendChannelReestablish { node_id, msg } = ev {
+					if node_id == node_b_id {
+						nodes[1].node.handle_channel_reestablish(node_a_id, &msg);
+					}
+				}
+			}
+			nodes[0].chain_monitor.added_monitors.lock().unwrap().clear();
+			nodes[1].chain_monitor.added_monitors.lock().unwrap().clear();
+			if !any {
+				break;
+			}
+		}
+		if failed_at >= 0 {
+			break;
+		}
+		connect_blocks(&nodes[1], 1);
+	}
+	trace.lock().unwrap().rec(
+		"ONCH",
+		format!(
+			"feerate={} amt={} which={} restart_depth={} stale_mgr={} outs={} htlc_output={} failed_at_depth={}",
+			feerate,
+			amt_msat,
+			which,
+			restart_depth,
+			stale_mgr,
+			outs.iter().map(|v| v.to_string()).collect::<Vec<_>>().join("/"),
+			htlc_output,
+			failed_at
+		),
+	);
+	std::mem::forget(nodes);
+}
+
+fn run_onchain_cases(out: &mut std::fs::File, shard: u64, nshards: u64) {
+	let mut idx = 0u64;
+	// On a non-anchor channel an HTLC B offers is trimmed below dust_limit + feerate*663/1000 sat on B's
+	// own commitment (HTLC-timeout) and below dust_limit + feerate*703/1000 sat on C's (HTLC-success):
+	// amounts below both, between the two (an output on exactly ONE side), and above both.
+	// (With anchors the second-stage fee is zero and the two thresholds coincide.)
+	for feerate in [253u32, 1000] {
+		let lo = 354 + feerate as u64 * 663 / 1000;
+		let hi = 354 + feerate as u64 * 703 / 1000;
+		for amt in [300_000u64, lo * 1000 - 1, lo * 1000, (lo + hi) * 500, hi * 1000 - 1, hi * 1000, hi * 1000 + 600_000] {
+			for which in 0..3u8 {
+				for restart in [-1i32, 0, 1, 2, 3, 4, 5, 6, 7, 8] {
+					for stale in [false, true] {
+						if restart < 0 && stale {
+							continue;
+						}
+						if feerate != 253 && !(restart == -1 || restart == 5 || restart == 6) {
+							continue;
+						}
+						if idx % nshards == shard {
+							scripted(
+								idx,
+								format!("feerate={} amt={} which={} restart={} stale={}", feerate, amt, which, restart, stale),
+								out,
+								move |t| onchain_case(feerate, amt, which, restart, stale, t),
+							);
+						}
+						idx += 1;
+					}
+				}
+			}
+		}
+	}
+}
+
 fn run_splice_cases(out: &mut std::fs::File) {
 	let mut idx = 0u64;
 	for splice in 0..2u8 {
@@ -1914,6 +2255,16 @@ fn main() {
 			for i in first..first + count {
 				run_one(seed, i, &mut out);
 			}
+		},
+		"intercept" => {
+			let mut out = std::fs::File::create(&args[4]).unwrap();
+			run_intercept_cases(&mut out);
+		},
+		"onchain" => {
+			// h_fwdm onchain <shard> <nshards> <outfile>
+			let nshards: u64 = args[3].parse().unwrap();
+			let mut out = std::fs::File::create(&args[4]).unwrap();
+			run_onchain_cases(&mut out, seed, nshards);
 		},
 		"splice" => {
 			// h_fwdm splice <ignored> <ignored> <outfile>
